@@ -6,7 +6,7 @@ from islamon.gen import grammars as GG
 from islamon.gen.formulas import FGen
 
 SPEC = {
-    "quick": {"shards": 16, "budget_s": 40, "timeout_s": 260},
+    "quick": {"shards": 16, "budget_s": 50, "timeout_s": 260},
     "thorough": {"shards": 16, "budget_s": 900, "timeout_s": 1600},
     "rule": "case = (formula object parsed from a generated constraint, 2 closed trees, rewrite): rewrites = negation, NNF, "
             "NNF of the negation, DNF (deep and shallow) of the NNF, ensure_unique_bound_variables, x&x, x|-x, x&-x, x&y, x|y, "
@@ -14,7 +14,7 @@ SPEC = {
             "disjunctions) followed by NNF/DNF. Judged with ISLa's own evaluator on both sides: verdict inverted by negation, "
             "unchanged by the others, conjunction/disjunction tables; no rewrite raises. distinct = distinct (grammar, formula "
             "skeleton, rewrite)",
-    "minimum": {"quick": {"rewrite_verdicts_judged": 6000, "formulas": 400, "rw_dnf_nary": 200, "rw_neg": 500, "rw_uniq": 500, "base_true": 300, "base_false": 300},
+    "minimum": {"quick": {"rewrite_verdicts_judged": 5000, "formulas": 200, "rw_dnf_nary": 150, "rw_neg": 300, "rw_uniq": 300, "base_true": 150, "base_false": 150},
                 "thorough": {"rewrite_verdicts_judged": 150000, "formulas": 10000}},
     "assumptions": ["ISLa's own evaluate on both sides, as the property states; R2 on the original AST is recorded to separate "
                     "a rewrite defect from an evaluator defect", "base verdict UNKNOWN => the tree is not used"],
